@@ -37,5 +37,5 @@ pub fn strategy_for(tier: Tier) -> BoxedStrategy<Case> {
 }
 
 pub fn plan(tier: Tier) -> Plan<Case> {
-    Plan { strategy: strategy_for(tier), check, shrink_iters: 400, cases: match tier { Tier::Quick => 8_000, Tier::Thorough => 200_000 } }
+    Plan { strategy: strategy_for(tier), check, shrink_iters: 400, decode_bytes: None, cases: match tier { Tier::Quick => 8_000, Tier::Thorough => 200_000 } }
 }
